@@ -53,6 +53,21 @@ func ParseJSONB(data []byte) interface{} {
 	}
 	dataStart := 4 + numEntries*4
 
+	// End offsets never decrease in a container written by PostgreSQL.  Refusing the others keeps
+	// the children disjoint (otherwise k children can alias the same bytes and nested parsing
+	// costs k^depth).
+	end := 0
+	for _, je := range entries {
+		v := int(je & jeOffMask)
+		if je&jeHasOff == 0 {
+			end += v
+		} else if v < end {
+			return nil
+		} else {
+			end = v
+		}
+	}
+
 	var result interface{}
 	if isObj {
 		result = parseJSONBObject(data, entries, dataStart, count)
